@@ -76,7 +76,7 @@ def run_op(op, c1, c2):
         elif name == "epa":
             _info.pop("n_points", None)
             d, a, b, simplex = gjk.gjk_distance_jolt(c1, c2)
-            out.update(d=float(d), n_points=_info.get("n_points"))
+            out.update(d=float(d), n_points=_info.get("n_points"), simplex=arr(simplex))
             if d < 1e-12:
                 mtv, faces, success = EPA.epa(simplex, c1, c2, **kw)
                 out.update(mtv=arr(mtv), success=bool(success))
